@@ -9,7 +9,7 @@ from . import core, model
 from .model import ENUM_KINDS
 
 SYLVIA_FEATURES = '["mt", "iterator", "stargate", "cosmwasm_1_1", "cosmwasm_1_2", "cosmwasm_1_3", "cosmwasm_1_4", "cosmwasm_2_0"]'
-VSUPPORT = os.path.join(core.VERIF, "support", "vsupport")
+VSUPPORT = core.materialize(os.path.join(core.VERIF, "support", "vsupport"), "vsupport")
 
 PRELUDE = """#![allow(unused, dead_code, deprecated, non_snake_case, non_camel_case_types, clippy::all)]
 use {fw}::cw_std::{{self, Addr, Binary, Coin, Empty, Reply, Response, StdError, StdResult, SubMsgResult, Uint128, CosmosMsg, WasmMsg, SubMsg, BankMsg}};
